@@ -101,14 +101,6 @@ def run_mapping(
     if 'tmp_dir' not in config:
         raise RuntimeError("did not specify tmp_dir")
 
-    if config['tmp_dir'] is not None:
-        timestamp = get_timestamp().replace('-', '')
-        tmp_dir = tempfile.mkdtemp(
-            dir=config['tmp_dir'],
-            prefix=f'cell_type_mapper_{timestamp}_')
-    else:
-        tmp_dir = None
-
     if output_path is not None:
         output_path = pathlib.Path(output_path)
 
@@ -131,7 +123,18 @@ def run_mapping(
                         "unable to write to "
                         f"{pth.resolve().absolute()}")
 
+    # scratch directories are created only now, immediately before
+    # the try/finally block that is responsible for removing them
+    tmp_dir = None
+    tmp_result_dir = None
+
     try:
+        if config['tmp_dir'] is not None:
+            timestamp = get_timestamp().replace('-', '')
+            tmp_dir = tempfile.mkdtemp(
+                dir=config['tmp_dir'],
+                prefix=f'cell_type_mapper_{timestamp}_')
+
         if config['tmp_dir'] is not None:
             tmp_result_dir = tempfile.mkdtemp(
                 dir=config['tmp_dir'],
@@ -179,7 +182,6 @@ def run_mapping(
                         },
                         indent=2))
 
-        _clean_up(tmp_result_dir)
         log.info("MAPPING FROM SPECIFIED MARKERS RAN SUCCESSFULLY")
     except Exception:
         traceback_msg = "an ERROR occurred ===="
@@ -187,6 +189,7 @@ def run_mapping(
         log.add_msg(traceback_msg)
         raise
     finally:
+        _clean_up(tmp_result_dir)
         _clean_up(tmp_dir)
         log.info("CLEANING UP")
         if log_path is not None:
